@@ -9,6 +9,7 @@
 use crate::num::{mask, pow2, Num};
 use crate::prng::Rng;
 use crate::report::Run;
+use crate::rangew::three_symbol_cdf;
 use crate::table::*;
 use constriction::stream::chain::{ChainCoder, DecoderFrontendError, EncoderFrontendError};
 use constriction::stream::{Code, Decode, Encode};
@@ -73,7 +74,7 @@ fn decode_some<W: Num, S: Num, Pr: Num, const P: usize>(
     run: &mut Run,
     rng: &mut Rng,
     c: &mut CC<W, S, P>,
-    zoo: &[TableModel<Pr, P>],
+    zoo: &mut Vec<TableModel<Pr, P>>,
     k: usize,
     desc: &str,
 ) -> Option<Vec<(usize, usize)>>
@@ -83,8 +84,41 @@ where
     Pr: Into<W>,
 {
     let mut out = Vec::new();
+    let steer = rng.bool();
     for i in 0..k {
-        let mi = rng.below(zoo.len() as u64) as usize;
+        let mut mi = rng.below(zoo.len() as u64) as usize;
+        // Head steering (a state-observing adversary): read the next chunk q with an identity
+        // model on a clone and the remainders head rh through the hook, then build a model whose
+        // symbol around q has (cum, p) with rh * p + (q - cum) == T for a target T on or next to
+        // a power of two that matters to the coder (word boundaries, the flush / refill bounds).
+        if steer && zoo.len() < 400 && rng.chance(1, 3) {
+            let mut probe = c.clone();
+            if let Ok(q) = probe.decode_symbol(IdentityModel::<Pr, P>::new()) {
+                let (_, rh) = c.state().verif_parts();
+                let rh = rh.as_u();
+                let (s, w) = (S::NBITS, W::NBITS);
+                let total = pow2(P as u32);
+                let ks = [w, 2 * w, s - P as u32, s - P as u32 - w, s - w, s - 1];
+                let kk = ks[rng.below(ks.len() as u64) as usize];
+                if kk < s && rh > 0 {
+                    let t = pow2(kk).wrapping_add(rng.below(3) as u128).wrapping_sub(1);
+                    for p in [t / rh, (t / rh).saturating_sub(1)] {
+                        if p >= 1 && p < total {
+                            if let Some(r) = rh.checked_mul(p).and_then(|x| t.checked_sub(x)) {
+                                if r < p && r <= q && q - r + p <= total {
+                                    if let Some((cdf, _target)) = three_symbol_cdf(q - r, p, P as u32) {
+                                        zoo.push(TableModel::new(cdf));
+                                        mi = zoo.len() - 1;
+                                        run.count("head_steered_decodes", 1);
+                                        break;
+                                    }
+                                }
+                            }
+                        }
+                    }
+                }
+            }
+        }
         let before = c.state().verif_parts();
         match c.decode_symbol(&zoo[mi]) {
             Ok(s) => {
@@ -192,9 +226,9 @@ where
     if !heads_ok(run, &c, "after construction", &desc) {
         return;
     }
-    let z = zoo::<Pr, P>(rng);
+    let mut z = zoo::<Pr, P>(rng);
     let k = rng.usize_in(0, if run.small { 20 } else if run.thorough() { 300 } else { 100 });
-    let Some(syms) = decode_some(run, rng, &mut c, &z, k, &desc) else { return };
+    let Some(syms) = decode_some(run, rng, &mut c, &mut z, k, &desc) else { return };
     for &(mi, s) in &syms {
         run.h(s as u64 ^ (mi as u64) << 40);
     }
@@ -327,11 +361,11 @@ macro_rules! schedule_fn {
                 run.count("construction_refused", 1);
                 return;
             };
-            let za = zoo::<Pr, PA>(rng);
-            let zb = zoo::<Pr, PB>(rng);
+            let mut za = zoo::<Pr, PA>(rng);
+            let mut zb = zoo::<Pr, PB>(rng);
             let kmax = if run.small { 8 } else { 40 };
             let k1 = rng.usize_in(0, kmax);
-            let Some(s1) = decode_some(run, rng, &mut c, &za, k1, &desc) else { return };
+            let Some(s1) = decode_some(run, rng, &mut c, &mut za, k1, &desc) else { return };
             // PA -> PB
             let mut c = match c.$fwd::<PB>().map_err(|e| format!("{e:?}")) {
                 Ok(c) => c,
@@ -349,7 +383,7 @@ macro_rules! schedule_fn {
                 return;
             }
             let k2 = rng.usize_in(0, kmax);
-            let Some(s2) = decode_some(run, rng, &mut c, &zb, k2, &desc) else { return };
+            let Some(s2) = decode_some(run, rng, &mut c, &mut zb, k2, &desc) else { return };
             // optionally go through the remainders export / import at precision PB
             let mut c = if via_remainders {
                 let (prefix, suffix) = match c.into_remainders() {
@@ -425,6 +459,10 @@ pub fn case(run: &mut Run, rng: &mut Rng) {
         plain::<u32, u64, u32, 24>,
         plain::<u32, u64, u32, 32>,
         plain::<u32, u64, u8, 8>,
+        plain::<u64, u128, u32, 24>,
+        plain::<u64, u128, u64, 40>,
+        plain::<u32, u128, u32, 32>,
+        plain::<u16, u128, u16, 9>,
         schedule_any::<u8, u16, u8, 3, 8>,
         schedule_any::<u8, u16, u8, 8, 3>,
         schedule_up::<u8, u32, u8, 5, 8>,
